@@ -42,6 +42,7 @@ type Turn18 struct {
 	Calls   []Call18 `json:"calls,omitempty"`
 	Chunks  int      `json:"chunks"`          // number of stream chunks
 	Late    bool     `json:"late,omitempty"`  // tool calls arrive after a content chunk (needs the whole-stream checker)
+	IDLate  bool     `json:"idlate,omitempty"` // id, type and name of the tool calls arrive in the chunk after the first argument fragment
 }
 
 type CaseC18 struct {
@@ -102,10 +103,11 @@ func (c CaseC18) assistant(turn int, tag string) *schema.Message {
 func (c CaseC18) chunks(turn int, tag string) []*schema.Message {
 	full := c.assistant(turn, tag)
 	n := 1
-	late := false
+	late, idLate := false, false
 	if turn < len(c.Script) {
 		n = c.Script[turn].Chunks
 		late = c.Script[turn].Late && c.WholeChk
+		idLate = c.Script[turn].IDLate
 	}
 	if n <= 1 {
 		return []*schema.Message{full}
@@ -116,13 +118,21 @@ func (c CaseC18) chunks(turn int, tag string) []*schema.Message {
 	for _, tc := range full.ToolCalls {
 		idx := *tc.Index
 		a := tc.Function.Arguments
-		head.ToolCalls = append(head.ToolCalls, schema.ToolCall{Index: &idx, ID: tc.ID, Type: tc.Type, Function: schema.FunctionCall{Name: tc.Function.Name, Arguments: a[:len(a)/2]}})
+		if idLate {
+			head.ToolCalls = append(head.ToolCalls, schema.ToolCall{Index: &idx, Function: schema.FunctionCall{Arguments: a[:len(a)/2]}})
+		} else {
+			head.ToolCalls = append(head.ToolCalls, schema.ToolCall{Index: &idx, ID: tc.ID, Type: tc.Type, Function: schema.FunctionCall{Name: tc.Function.Name, Arguments: a[:len(a)/2]}})
+		}
 	}
 	tail := &schema.Message{Role: schema.Assistant}
 	for _, tc := range full.ToolCalls {
 		idx := *tc.Index
 		a := tc.Function.Arguments
-		tail.ToolCalls = append(tail.ToolCalls, schema.ToolCall{Index: &idx, Function: schema.FunctionCall{Arguments: a[len(a)/2:]}})
+		if idLate {
+			tail.ToolCalls = append(tail.ToolCalls, schema.ToolCall{Index: &idx, ID: tc.ID, Type: tc.Type, Function: schema.FunctionCall{Name: tc.Function.Name, Arguments: a[len(a)/2:]}})
+		} else {
+			tail.ToolCalls = append(tail.ToolCalls, schema.ToolCall{Index: &idx, Function: schema.FunctionCall{Arguments: a[len(a)/2:]}})
+		}
 	}
 	content := full.Content
 	k := n - 2
@@ -242,6 +252,7 @@ func genC18(t *rapid.T) CaseC18 {
 			tr.Calls = append(tr.Calls, Call18{Tool: c.Tools[rapid.IntRange(0, 2).Draw(t, "tool")], Args: rapid.StringMatching("[a-c]{0,3}").Draw(t, "args")})
 		}
 		tr.Late = rapid.IntRange(0, 3).Draw(t, "late") == 0
+		tr.IDLate = rapid.IntRange(0, 3).Draw(t, "idLate") == 0
 		c.Script = append(c.Script, tr)
 	}
 	if rapid.IntRange(0, 2).Draw(t, "hasDirect") == 0 {
